@@ -363,6 +363,19 @@ class World:
         from exabgp.configuration.configuration import Configuration
 
         orig_reload = Configuration.reload
+        orig_inner = Configuration._reload
+        inner_exc: dict = {}
+
+        def _reload(conf_self):
+            # pass-through: which exception type (if any) the parser let escape into reload()'s catch-all
+            inner_exc.clear()
+            try:
+                return orig_inner(conf_self)
+            except BaseException as exc:
+                inner_exc['type'] = type(exc).__name__
+                raise
+
+        Configuration._reload = _reload
 
         def reload(conf_self):
             before = sorted(conf_self.neighbors.keys())
@@ -373,7 +386,7 @@ class World:
                 world.rec('reload', result=f'raise {type(exc).__name__}: {exc}')
                 raise
             after = sorted(conf_self.neighbors.keys())
-            world.reload_log.append({'mono': world.loop.mono, 'result': r is True, 'before': before, 'after': after, 'error': '' if r is True else str(conf_self.error)[:300]})
+            world.reload_log.append({'mono': world.loop.mono, 'result': r is True, 'before': before, 'after': after, 'error': '' if r is True else str(conf_self.error)[:300], 'exc': inner_exc.get('type')})
             world.rec('reload', result=r is True, n_before=len(before), n_after=len(after))
             return r
 
